@@ -297,6 +297,12 @@ func (c *Check) Finish() int {
 			cov["disagreements_checked"] = len(c.viols)
 		}
 	}
+	if c.Assumptions == nil {
+		c.Assumptions = []string{"go/types and x/tools v0.29.0 are sound; the corpus bounds the schema quantifier where generated code is analysed"}
+	}
+	if c.Trusted == nil {
+		c.Trusted = []string{"go/types"}
+	}
 	ev := map[string]any{
 		"property_id": c.ID,
 		"tier":        c.Tier,
